@@ -110,3 +110,83 @@ Theorem gff_split_feature_repaired :
   st_db (load true 2 split_file) = st_db (load true 3 split_file) /\
   Forall (fun r => gr_start r = spans_min (gr_spans r) /\ gr_stop r = spans_max (gr_spans r)) (st_db (load true 2 split_file)).
 Proof. exact split_feature_repaired. Qed.
+
+(** ---------- stored rows: start/stop are the extremes of the spans (GFF and GenBank loaders) ---------- *)
+Theorem gff_row_start_stop : forall seqid bt nm strand attrs lines,
+  lines <> [] ->
+  let r := gff_row seqid bt nm strand attrs lines in
+  Permutation (r_spans r) (map norm_span (map (fun p => gff_coord (fst p) (snd p)) lines)) /\
+  In (r_start r) (coords (r_spans r)) /\ In (r_stop r) (coords (r_spans r)) /\
+  (forall x, In x (coords (r_spans r)) -> r_start r <= x <= r_stop r).
+Proof. exact gff_row_extent. Qed.
+
+Theorem genbank_row_start_stop : forall seqid bt nm x,
+  loc_flat x <> [] ->
+  let r := gb_row seqid bt nm x in
+  In (r_start r) (coords (r_spans r)) /\ In (r_stop r) (coords (r_spans r)) /\
+  (forall y, In y (coords (r_spans r)) -> r_start r <= y <= r_stop r).
+Proof. exact gb_row_extent. Qed.
+
+(** ---------- GenBank locations: 1-based closed -> 0-based half-open, complement -> strand ---------- *)
+Theorem genbank_segment_coords : forall a b,
+  1 <= a <= b ->
+  loc_spans (LSeg a b) = [(a - 1, b)] /\ loc_strand (LSeg a b) = Some [43] /\ b - (a - 1) = b - a + 1.
+Proof. exact gb_segment. Qed.
+
+Theorem genbank_point_coords : forall a, loc_spans (LPoint a) = [(a - 1, a)] /\ loc_strand (LPoint a) = Some [43].
+Proof. exact gb_point. Qed.
+
+Theorem genbank_complement_segment : forall a b,
+  loc_spans (LCompl [LSeg a b]) = loc_spans (LSeg a b) /\ loc_strand (LCompl [LSeg a b]) = Some [45].
+Proof. exact gb_complement_segment. Qed.
+
+Theorem genbank_join_coords : forall ps,
+  ps <> [] ->
+  loc_spans (LJoin (map seg_of ps)) = sort_spans (map seg_span ps) /\
+  loc_strand (LJoin (map seg_of ps)) = Some [43].
+Proof. exact gb_join_segments. Qed.
+
+Theorem genbank_complement_join_coords : forall ps,
+  ps <> [] ->
+  Permutation (loc_spans (LCompl [LJoin (map seg_of ps)])) (map seg_span ps) /\
+  Sorted span_le (loc_spans (LCompl [LJoin (map seg_of ps)])) /\
+  loc_strand (LCompl [LJoin (map seg_of ps)]) = Some [45].
+Proof. exact gb_complement_join_segments. Qed.
+
+(** ---------- multi-table databases: the tables partition the record list ---------- *)
+Theorem table_listing_is_the_record_multiset : forall tables db,
+  tables_ok tables db -> Permutation (records_in_tables tables db) db.
+Proof. exact records_in_tables_perm. Qed.
+
+(** subset(): exactly the records of the whole db (every table) a scan selects *)
+Theorem subset_is_scan_of_all_tables : forall tables db q,
+  tables_ok tables db -> Forall row_wf db -> query_wf q -> q_on_aln q <> Some true ->
+  Permutation (gquery tables db q) (filter (spec_match q) db).
+Proof. exact subset_multiset. Qed.
+
+(** update()/union() as the code does them, table by table, between classes with different table sets *)
+Theorem update_between_classes_preserves_multiset : forall otables self other,
+  tables_ok otables other -> Permutation (db_update_tw otables self other) (self ++ other).
+Proof. exact update_tw_multiset. Qed.
+
+Theorem union_between_classes_preserves_multiset : forall stables otables a b,
+  tables_ok stables a -> tables_ok otables b ->
+  Permutation (db_union_tw stables otables a b) (a ++ b).
+Proof. exact union_tw_multiset. Qed.
+
+(** to_rich_dict -> from_dict: same multiset of records, and every query answers the same *)
+Theorem rich_dict_roundtrip_preserves_multiset : forall tables db,
+  tables_ok tables db -> Permutation (from_rich (to_rich tables db)) db.
+Proof. exact rich_roundtrip_multiset. Qed.
+
+Theorem rich_dict_roundtrip_preserves_queries : forall tables db q,
+  tables_ok tables db ->
+  gquery tables (from_rich (to_rich tables db)) q = gquery tables db q /\
+  gcount tables (from_rich (to_rich tables db)) q = gcount tables db q.
+Proof. exact rich_roundtrip_query. Qed.
+
+(** under the repaired rule every stored row keeps start/stop = extremes of its spans,
+    for every file and every block size (false of the rule as first read, see
+    [gff_split_feature_extent_refuted]) *)
+Theorem gff_repaired_rule_extent_invariant : forall N lines, Forall extent_ok (st_db (load true N lines)).
+Proof. exact load_fixed_extent. Qed.
